@@ -390,14 +390,15 @@ def job_bending(cls, role):
         if g is None:
             return
         Ft = H.mkq(c, "Force", "Ft")
-        if not c.concrete:
-            c.assume(Ft.si() >= 0)            # post of compute_tangential_force: |T| / (d/2)
+        c.assume(L.ge(H.SI(Ft), 0))            # post of compute_tangential_force: |T| / (d/2)
         g.__dict__["_GearBase__tangential_force"] = Ft
         mate = Mate()
         if cls == "WormWheel":
             mate.reference_diameter = H.mkq(c, "Length", "worm_d")
             mate.helix_angle = H.mkq(c, "Angle", "worm_beta")
-            if not c.concrete:
+            if c.concrete:
+                c.assume(0 < float(H.SI(mate.helix_angle)) < 1.5707 and float(H.SI(mate.reference_diameter)) > 0)
+            else:
                 # a valid worm: 0 < helix angle < 90 deg (its constructor's maximum-helix check)
                 c.assume(z3.And(mate.helix_angle.si() > 0, mate.helix_angle.si() < sym.frac_term(sym.PI / 2)))
         set_role(g, cls, role, mate)
@@ -416,6 +417,17 @@ def job_bending(cls, role):
             den = L.mul(L.mul(H.SI(q["m"]), H.SI(q["b"])), Y)
         else:
             # p_n = pi * d_worm * sin(beta_worm) / N ; b_eff = min(b, 0.67 d_worm)
+            if c.concrete:
+                import math
+                dwf, bwf = float(H.SI(mate.reference_diameter)), float(H.SI(q["b"]))
+                pnf = math.pi * dwf * math.sin(float(H.SI(mate.helix_angle))) / q["n"]
+                limf = 0.67 * dwf
+                bandf = float(4 * AU.TOL * (AU.fac("Length", q["b"].unit) + AU.fac("Length", mate.reference_diameter.unit)))
+                sf, ff, Yf = float(H.SI(S)), float(H.SI(Ft)), float(g.lewis_factor)
+                O.prove("bending:=Ft/(p_n*b_eff*Y_alpha)",
+                        (L.eq(sf * (pnf * bwf * Yf), ff) and bwf <= limf + bandf) or (L.eq(sf * (pnf * limf * Yf), ff) and limf <= bwf + bandf),
+                        props=("C09",))
+                return
             dw = sym.term_of(H.SI(mate.reference_diameter))
             pn = sym.PI.numerator / z3.RealVal(sym.PI.denominator) * dw * sym.UF["sin"](sym.term_of(H.SI(mate.helix_angle))) / sym.term_of(q["n"])
             from fractions import Fraction
@@ -439,18 +451,16 @@ def job_bending(cls, role):
 
 def job_contact(cls, role, mate_module, mate_elastic):
     def body(c, O):
-        if c.concrete:
-            return
         g, q = build(c, O, cls, check=False, module=True, face=True, elastic=True)
         if g is None:
             return
         Ft = H.mkq(c, "Force", "Ft")
-        c.assume(Ft.si() >= 0)
+        c.assume(L.ge(H.SI(Ft), 0))
         g.__dict__["_GearBase__tangential_force"] = Ft
         mate = Mate(module=H.mkq(c, "Length", "mate_m") if mate_module else None,
                     elastic_modulus=H.mkq(c, "Stress", "mate_E") if mate_elastic else None)
         if mate_elastic:
-            c.assume(mate.elastic_modulus.si() > 0)          # the mate's constructor rejects E <= 0
+            c.assume(L.gt(H.SI(mate.elastic_modulus), 0))          # the mate's constructor rejects E <= 0
         if mate_module:
             mate.reference_diameter = H.mkq(c, "Length", "mate_d")
         set_role(g, cls, role, mate)
@@ -465,6 +475,18 @@ def job_contact(cls, role, mate_module, mate_elastic):
         O.cover("returns")
         S = g.contact_stress
         O.prove("contact:is-a-Stress", H.kind(S) == "Stress", props=("C09", "C17"))
+        if c.concrete:
+            import math
+            E1, E2, D1, D2 = (float(H.SI(x)) for x in (q["E"], mate.elastic_modulus, g.reference_diameter, mate.reference_diameter))
+            b, F, a = float(H.SI(q["b"])), float(H.SI(Ft)), math.radians(20)
+            if cls == "SpurGear":
+                inside = 4 * F / (b * math.cos(a) * math.sin(a)) * (1 / D1 + 1 / D2) * (E1 * E2 / (E1 + E2))
+            else:
+                beta = float(H.SI(q["beta"]))
+                a = math.atan(math.tan(a) / math.cos(beta))
+                inside = 4 * F * math.cos(beta) / (b * math.cos(a) * math.sin(a)) * (1 / D1 + 1 / D2) * (E1 * E2 / (E1 + E2))
+            O.prove("contact:=documented-Hertz-expression", inside >= 0 and L.eq(float(H.SI(S)), 0.262922 * math.sqrt(inside)), props=("C09", "C07"))
+            return
         E1, E2 = sym.term_of(H.SI(q["E"])), sym.term_of(H.SI(mate.elastic_modulus))
         D1, D2 = sym.term_of(H.SI(g.reference_diameter)), sym.term_of(H.SI(mate.reference_diameter))
         b = sym.term_of(H.SI(q["b"]))
